@@ -82,6 +82,7 @@ static RankInfo classify(const RefSVD& S, int m, int n, LD rcond, LD band) {
 template <class T> struct Ctx {
     typedef typename TT<T>::R R;
     verif::Run& run; const Case& c; RefSVD S; LD epsU, s1; int m, n, mx; std::string tname;
+    uint64_t oc = 0;   // coarse observed outcome of this case (ranks, flags, number of complex eigenvalues): kept coarse so that the set of distinct outcomes stays small
     Ctx(verif::Run& r, const Case& cc) : run(r), c(cc) {
         m = c.A.m; n = c.A.n; mx = std::max(std::max(m, n), 1);
         S = jacobiSVD(c.A); s1 = S.s1();
@@ -183,7 +184,7 @@ template <class T> static void checkLU(Ctx<T>& C, const Matrix_<T>& M, const DMa
     f.solve(Bm, Xm);
     DMat X = refOf(Xm);
     if (C.exp(X.m == n && X.n == B.n, "LU.solve.matrix.shape")) C.res("LU.solve.matrix.backward", finite(X) ? backward(C, B, X) : (LD)INFINITY, TOL.backward);
-    C.run.outcome(bitsOf(x1));
+    C.oc = verif::hashMix(C.oc, 1);   // LU factor usable
     // inverse
     LD kappa = C.S.s[n - 1] > 0 ? C.s1 / C.S.s[n - 1] : INFINITY;
     Matrix_<T> Inv; f.inverse(Inv);
@@ -283,7 +284,7 @@ template <class T> static void checkQTZ(Ctx<T>& C, const Matrix_<T>& M, const DM
     Matrix_<T> Bm = libOf<T>(B), Xm(n, B.n); for (int i = 0; i < n; ++i) for (int j = 0; j < B.n; ++j) Xm(i, j) = T(7);   // sentinel: solve must overwrite it
     f.solve(Bm, Xm);
     checkLS(C, "QTZ", ri, B, refOf(Xm), "solve.matrix");
-    C.run.outcome(verif::hashMix(bitsOf(x1), rank));
+    C.oc = verif::hashMix(C.oc, 100 + rank + (ri.amb ? 50 : 0));
     if (m == n) {   // inverse of a non-square matrix through QTZ: not defined by the docs, not called (see notes)
         Matrix_<T> Inv; f.inverse(Inv);
         checkLS(C, "QTZ", ri, DMat::identity(n), refOf(Inv), "inverse");
@@ -340,7 +341,7 @@ template <class T> static void checkSVD(Ctx<T>& C, const Matrix_<T>& M, const DM
     Matrix_<T> Bm = libOf<T>(B), Xm; f.solve(Bm, Xm);
     checkLS(C, "SVD", ri, B, refOf(Xm), "solve.matrix");
     if (!ri.amb) { int rk = f.getRank(); C.exp(rk == ri.k, "SVD.getRank-after-solve", "lib rank " + std::to_string(rk) + " reference rank " + std::to_string(ri.k)); }
-    C.run.outcome(bitsOf(x1));
+    C.oc = verif::hashMix(C.oc, 200 + ri.k + (ri.amb ? 50 : 0));
     // (pseudo-)inverse: square and wide; a tall matrix makes inverse() throw an argument-check exception (unspecified, counted)
     if (m <= n) { Matrix_<T> Inv; f.inverse(Inv); checkLS(C, "SVD", ri, DMat::identity(m), refOf(Inv), "inverse"); }
     else { bool threw = false; try { Matrix_<T> Inv; f.inverse(Inv); } catch (const std::exception&) { threw = true; } C.run.count(threw ? "unspecified:SVD-inverse-tall-throws" : "unspecified:SVD-inverse-tall-returns"); }
@@ -414,7 +415,7 @@ template <class T> static void checkEigen(Ctx<T>& C, const Matrix_<T>& M) {
     if (c.hasExact) { LD scn = 1; for (int i = 0; i < n; ++i) scn *= sc; C.res("Eigen.vectors.det", std::abs(prod - c.exDet) / (scn * C.epsU * n), TOL.eigDet); }
     if (c.herm) { LD im = 0; for (int i = 0; i < n; ++i) im = std::max(im, std::fabs(L(i, 0).imag())); C.res("Eigen.hermitian-eigenvalues-real", im / (sc * C.epsU), TOL.eigReal); C.run.count("Eigen:hermitian-cases"); }
     C.run.count("Eigen:complex-eigenvalue-cases", ncomplex ? 1 : 0);
-    C.run.outcome(bitsOf(val));
+    C.oc = verif::hashMix(C.oc, 300 + ncomplex + (smallImag ? 50 : 0));
     // values only (different LAPACK job): every value must be an eigenvalue of a nearby matrix: sigma_min(A - l I) small
     Eigen e2(M); Vector_<CR> val2; e2.getAllEigenValues(val2);
     DMat L2 = refOf(val2);
@@ -455,6 +456,7 @@ template <class T> static void runCase(verif::Run& run, const Case& c0, bool reu
     if (C.m == C.n) { checkLU(C, M, B); g_t[1] += run.elapsed() - t0; t0 = run.elapsed(); checkLLT(C, M, B); g_t[2] += run.elapsed() - t0; t0 = run.elapsed(); checkEigen(C, M); g_t[3] += run.elapsed() - t0; t0 = run.elapsed(); }
     checkQTZ(C, M, B, reuse); g_t[4] += run.elapsed() - t0; t0 = run.elapsed();
     checkSVD(C, M, B, reuse); g_t[5] += run.elapsed() - t0;
+    run.outcome(verif::hashMix(verif::hashMix(C.oc, verif::hashStr(TT<T>::name())), (uint64_t)(C.m * 100 + C.n)));
 }
 static void runAllTypes(verif::Run& run, const Case& real, const Case& cplx, bool reuse) {
     runCase<float>(run, real, reuse); runCase<double>(run, real, reuse);
